@@ -24,7 +24,7 @@ type c20Round struct {
 
 type c20Case struct {
 	MaxSize int          `json:"maxsize"`
-	Progs   [][]c20Round `json:"progs"` // per goroutine: rounds of (burst of writes, then Wait)
+	Progs   [][]c20Round `json:"progs"`              // per goroutine: rounds of (burst of writes, then Wait)
 	Flood   int          `json:"flood,omitempty"`    // extra goroutines that write without pause until the programs are done (back-pressure: a full write queue)
 	StallUs []int        `json:"stall_us,omitempty"` // the harness holds the policy lock for these intervals while the programs run
 }
